@@ -26,13 +26,25 @@ HEADER = ('From Coq Require Import ZArith List PrimFloat.\nFrom Epsie Require Im
 class Rig:
     """A real parallel-tempered chain whose levels' log-likelihoods and the sweep's uniforms are dictated."""
 
-    def __init__(self, betas, blobs=False, seed=1):
+    def __init__(self, betas, blobs=False, seed=1, via=None, built_with=None):
         self.n = len(betas)
         model = GaussModel(['x'], blobs=blobs, log=False)
-        self.pt = ParallelTemperedChain(['x'], model, [P.Normal(['x'])], betas=numpy.array(betas, dtype=float),
+        self.pt = ParallelTemperedChain(['x'], model, [P.Normal(['x'])], betas=numpy.array(betas if via is None else built_with, dtype=float),
                                         swap_interval=10 ** 6, bit_generator=None, chain_id=0)
         self.pt.start_position = {'x': numpy.arange(self.n, dtype=float) * 0.1}
         self.pt.step()                      # one record per level; no sweep (huge swap interval)
+        if via is not None:
+            # the ladder reaches the chain another way than through the constructor: loaded from the state of a chain
+            # built with this ladder ('state'), or assigned through the public betas setter ('setter')
+            if via == 'state':
+                other = ParallelTemperedChain(['x'], model, [P.Normal(['x'])], betas=numpy.array(betas, dtype=float),
+                                              swap_interval=10 ** 6, bit_generator=None, chain_id=0)
+                other.start_position = {'x': numpy.arange(self.n, dtype=float) * 0.1}
+                other.step()
+                self.pt.set_state(other.state)
+                self.pt.step()
+            else:
+                self.pt.betas = numpy.array(betas, dtype=float)
         self.betas = [float(b) for b in self.pt.betas]
 
     def sweep(self, logls, us):
@@ -173,7 +185,7 @@ def run(seed, tier):
     thorough = tier == 'thorough'
     rng = random.Random(seed * 2750159 + 3)
     out = core.Outcome()
-    out.rule = ("real swap_temperatures() calls on 3-6-level chains with dictated log-likelihoods (spread, ties, near-ties, extreme "
+    out.rule = ("real swap_temperatures() calls on 3-6-level chains (ladder given to the constructor, loaded through set_state into a chain built with another ladder, or assigned through the betas setter) with dictated log-likelihoods (spread, ties, near-ties, extreme "
                 "values, beta=0 hottest or not, blobs on/off) driven down EVERY decision path by scripted uniforms (u=0 / u=1-2^-53), "
                 "plus random uniforms; each call is one Coq case for the float instance of the sweep; direct oracle = the property's "
                 "adjacent-exchange statement in 50-digit decimals; exact sweep kernel on 3x3 configuration spaces for Pi K = Pi. "
@@ -183,7 +195,9 @@ def run(seed, tier):
     for k in range(nconf):
         n = rng.choice([3, 3, 4, 4, 5, 6] if thorough else [3, 3, 4, 5])
         betas = gen_betas(rng, n)
-        rig = Rig(betas, blobs=rng.random() < 0.5)
+        via = rng.choice([None, None, 'state', 'setter'])
+        rig = Rig(betas, blobs=rng.random() < 0.5, via=via, built_with=gen_betas(rng, n))
+        out.count('ladder_via_%s' % (via or 'constructor'))
         for _ in range(3 if thorough else 2):
             logls = gen_logls(rng, n)
             paths = all_paths(rig, logls)
@@ -200,7 +214,7 @@ def run(seed, tier):
                 if 0 < nsw and any(idx[t] == t for t in range(n)):
                     out.nontrivial.add(repr((betas, logls, idx)))
                 terms.append(coq_case(rig.betas, logls, us, idx, ars, used))
-                meta.append(dict(betas=rig.betas, logls=logls, uniforms=us, swap_index=idx, ars=ars, used=used))
+                meta.append(dict(betas=rig.betas, logls=logls, uniforms=us, swap_index=idx, ars=ars, used=used, ladder_via=via))
                 # ---- the property on the real call
                 c, ears, eused = spec_sweep(rig.betas, logls, us)
                 bad = None
